@@ -146,6 +146,67 @@ def covers(body, br, bad_target, site_bb):
     return body.dominates(br.bb, site_bb) and site_bb not in body.reachable_from(bad_target, avoid=[br.bb])
 
 
+def test_outcome(x, v, t):
+    """what observing the bool descriptor x with value v says about the amplification test call t:
+    'never'   x cannot have the value v,
+    'passed'  x == v only if t was evaluated and returned false (not blocked),
+    None      anything else.
+    x is the test itself, a negation, the literal true/false, or a merge of such values (`a && !blocked(n)` stored in a
+    named bool or returned by an inlined helper is phi[false | !blocked(n)]; `!a || blocked(n)` is phi[true | blocked(n)])."""
+    if x[0] == 'un' and x[1] == 'Not':
+        return test_outcome(x[2], not v, t)
+    if x[0] == 'const' and x[1] == 'int' and str(x[2]) in ('0', '1'):
+        return 'never' if (str(x[2]) == '1') != v else None
+    if x[0] == 'call' and len(x) > 4 and x[4] == t.bb and short(t.f) == x[1]:
+        return 'passed' if not v else None
+    if x[0] == 'phi':
+        rs = [test_outcome(y, v, t) for y in x[1]]
+        if all(r == 'never' for r in rs):
+            return 'never'
+        return 'passed' if all(r in ('never', 'passed') for r in rs) else None
+    return None
+
+
+def blocks_reaching(body, tgt, avoid):
+    """blocks from which tgt is reached without entering `avoid` (tgt included)"""
+    seen, stack = set(), [tgt]
+    while stack:
+        b = stack.pop()
+        if b in seen:
+            continue
+        seen.add(b)
+        stack.extend(p for p in body.pred[b] if p not in avoid and p not in seen)
+    return seen
+
+
+def nothing_changes_between(body, frm, to):
+    """on every path from the call terminating block `frm` to the terminator of block `to` nothing can change what the
+    call has read: no store through a reference and no call that is handed a mutable reference (log macros apart)"""
+    between = (body.reachable_strict(frm, avoid=[to]) & blocks_reaching(body, to, [frm])) | {to}
+    if frm in between:
+        return False
+    for b in between:
+        blk = body.blocks[b]
+        for st in blk['s']:
+            if st[0] == 'sd' or (st[0] == '=' and (st[1][1] or (st[2][0] == 'ref' and st[2][1]))):
+                return False        # a store into a projection (field / through a pointer) or a fresh `&mut`
+        if b == to:
+            continue
+        k = blk['t'][0]
+        if k == 'call':
+            c = [x for x in body.calls() if x.bb == b][0]
+            if is_noise(c):
+                continue
+            if c.dst[1]:
+                return False        # result stored into a projection
+            for a in c.args:
+                if a[0] in ('c', 'm') and (a[1][1] or body.local_ty(a[1][0]).lstrip().startswith(('&mut', '*mut'))):
+                    return False
+        elif k not in ('goto', 'switch', 'assert'):
+            return False
+    return True
+
+
 def rule_b(ctx):
     F = ctx.facts
     pt = ctx.pfn('Connection::poll_transmit')
@@ -214,8 +275,34 @@ def rule_b(ctx):
     nothing_built = lambda bb: any(covers(pt, br, other, bb) for br, other in empty)
     nbr = 0
     guards = []     # (test, branch, target of the BLOCKED edge, argument accounts for the whole batch)
+    keep = counters | sizes
+
+    def def_sites(l):
+        return [(df[1], df[2] if df[0] in ('stmt', 'field', 'sd') else 1 << 30) for df in pt.defs_of(l) if df[0] != 'arg']
+
+    def named_value(x, use_bb, depth=0):
+        """x with every named temporary (a named local other than the counter / size locals) replaced by the expression
+        of its single definition, provided that definition dominates the use and neither the counter nor the size local
+        is redefined between the definition and the use (`let n = size * count + 1; blocked(n)` reads the same values as
+        `blocked(size * count + 1)` only then); anything else is left as it is and so fails the exact shapes below"""
+        if x[0] == 'bin':
+            return x[:2] + (named_value(x[2], use_bb, depth), named_value(x[3], use_bb, depth)) + x[4:]
+        if not (x[0] == 'local' and x[1] not in keep and x[2] and depth < 4):
+            return x
+        dfs = pt.defs_of(x[1])
+        if len(dfs) != 1 or dfs[0][0] != 'stmt':
+            return x
+        tb, ti = dfs[0][1], dfs[0][2]
+        if not pt.dominates(tb, use_bb):
+            return x
+        after = pt.reachable_strict(tb, avoid=[tb])
+        for k in keep:
+            for kb, ki in def_sites(k):
+                if (kb == tb and ki > ti) or (kb != tb and kb in after and use_bb in pt.reachable_from(kb, avoid=[tb])):
+                    return x
+        return named_value(d.rvalue(dfs[0][3], tb, ti, 0), use_bb, depth + 1)
     for t in tests:
-        a = d.operand(t.args[1], t.bb, term_idx(pt, t.bb))
+        a = named_value(d.operand(t.args[1], t.bb, term_idx(pt, t.bb)), t.bb)
         full = two(a, 'Add', lambda y: is_int(y, 1),
                    lambda y: two(y, 'Mul', lambda z: z[0] == 'local' and z[1] in counters, lambda z: z[0] == 'local' and z[1] in sizes))
         mine = []
@@ -224,6 +311,15 @@ def rule_b(ctx):
             if inner[0] == 'call' and contains_site(inner, t):
                 nbr += 1
                 mine.append((t, br, br.target(0 if neg else 1), full))
+                continue
+            # the same test behind a bool: `let ok = a && !blocked(n); .. if .. && ok`, `let no = !a || blocked(n); if !(no || ..)`,
+            # or a one-line `&self` helper returning such a value (its body is part of this MIR): the edge on which the bool
+            # can only have the value it gets from a passed test is the not-blocked edge, provided nothing between the test and
+            # the branch can change what the test has read
+            for v in (True, False):
+                if test_outcome(br.desc, v, t) == 'passed' and nothing_changes_between(pt, t.bb, br.bb):
+                    nbr += 1
+                    mine.append((t, br, br.target(0 if v else 1), full))
         guards += mine
         # `blocked(1)` asks for one byte on top of total_sent alone: right only where this call has not built anything yet
         guarded = [bb for bb, _ in allocs + fresh if any(covers(pt, br, tb, bb) for _, br, tb, _ in mine)]
